@@ -452,6 +452,9 @@ func (db *DB) enqueuePartitionRequests(parallelism int, requests chan *partition
 			}
 		default:
 			markQueued()
+			if verifNap() {
+				continue
+			}
 			time.Sleep(1 * time.Second)
 		}
 	}
@@ -641,6 +644,7 @@ func (db *DB) followLeaders(stream string, newSubscriber chan *tableWithOffsets,
 	// Wait a little while for database to initialize
 	// TODO: make this more rigorous, perhaps using eventual or something
 	timer := time.NewTimer(30 * time.Second)
+	verifTimer(timer, 30*time.Second)
 	var tables []*table
 	var offsets []common.OffsetsBySource
 	partitions := make(map[string]*common.Partition)
@@ -654,6 +658,7 @@ waitForTables:
 			if len(tables) == 0 {
 				// Wait some more
 				timer.Reset(10 * time.Second)
+				verifTimer(timer, 10*time.Second)
 			}
 			break waitForTables
 		case subscriber := <-newSubscriber:
@@ -676,6 +681,7 @@ waitForTables:
 			})
 			// Got some tables, don't wait as long this time
 			timer.Reset(5 * time.Second)
+			verifTimer(timer, 5*time.Second)
 		}
 	}
 
